@@ -74,7 +74,7 @@ CLAIMED = {
    design="§3 C17"),
  "C03": dict(
    technique="exhaustive enumeration of four bounded program grammars (scoping frames, control flow, callables x call shapes, operator trees) executed on the real compiler and on a reference interpreter written from the language reference; equality of all observable values and of the @debug/@warn log",
-   text="Scoping: 10 frame kinds (style rule, @if/@else at root, @each, @for, @while, mixin defined in place / at root, function, content block) x bodies of <= 2 statements from an 8-statement alphabet ($x assignment, increment, !global, !default, copy, probes) with one nested frame before/after x 4 placements; closures: every sequence of <= 4 (thorough 5) steps over {define function / mixin reading $x, assign $x, assign !global, call, include, probe} in 5 enclosing contexts; control flow: @for from,to in -2..3 x {to, through} with and without @return from the loop, @each over 7 list/map shapes x 1-3 variables, @while, nested loops with @return, @if chains over 10x10 truthiness classes; callables: every parameter list of <= 3 parameters (required / default / default referring to the previous parameter / rest) x 42 call shapes as function and as mixin, @content(args) using (params); operators: all binary expressions over 12 operators x 9x9 leaves, all 2-operator trees in both associations and all five shapes of 3-operator trees, each also compared with its fully parenthesised spelling, and/or short-circuit observed through a logging function. Every program: grass and the reference interpreter agree on every probe value, on the log, or both fail.",
+   text="Scoping: 10 frame kinds (style rule, @if/@else at root, @each, @for, @while, mixin defined in place / at root, function, content block) x bodies of <= 2 (thorough 3) statements from an 8-statement alphabet ($x assignment, increment, !global, !default, copy, probes) with one nested frame holding <= 2 statements before/after x 4 placements; closures: every sequence of <= 5 (thorough 6) steps over {define function / mixin reading $x, assign $x, assign !global, call, include, probe} in 5 enclosing contexts; control flow: @for from,to in -2..3 x {to, through} with and without @return from the loop, @each over 7 list/map shapes x 1-3 variables, @while, nested loops with @return, @if chains over 10x10 truthiness classes; callables: every parameter list of <= 3 parameters (required / default / default referring to the previous parameter / rest) x 42 call shapes as function and as mixin, @content(args) using (params); operators: all binary expressions over 12 operators x 9x9 leaves, all 2-operator trees in both associations and all five shapes of 3-operator trees, each also compared with its fully parenthesised spelling, and/or short-circuit observed through a logging function. Every program: grass and the reference interpreter agree on every probe value, on the log, or both fail.",
    note="The reference interpreter (mc/src/models/interp.rs: frames are plain maps with a semi-global flag, closures capture the frame list, argument binding per the reference) is part of the trusted base. Values are integers, short strings, booleans, null, flat lists and maps. `null + null` / `-(null)` are skipped as not settled by the reference material.",
    design="§3 C03, A.1"),
  "C10": dict(
